@@ -674,9 +674,9 @@ func servingProtocol(c *core.Ctx) []string {
 			fail("idle-set insert outside releaseConn at %s", c.Rel(op.In.Pos()))
 			continue
 		}
-		errP := rel.Params[2]
-		miss := core.Reach(rel, rel.Blocks[0].Instrs[0], func(in ssa.Instruction) bool { return in == op.In }, func(in ssa.Instruction) bool {
-			return isCallOn(in, enterIdle, op.Key) || core.NilAt(errP, in.Block()) == core.NonNil
+		// every feasible path to the insert (branches on one condition value taken consistently) passes enterIdle
+		miss := reachConsistent(rel, nil, func(in ssa.Instruction) bool { return in == op.In }, func(in ssa.Instruction) bool {
+			return isCallOn(in, enterIdle, op.Key)
 		})
 		if miss != nil {
 			fail("idle-set insert at %s reachable without enterIdle on the inserted connection", c.Rel(op.In.Pos()))
@@ -753,6 +753,7 @@ func servingProtocol(c *core.Ctx) []string {
 		fail("asyncDial's worker has no send")
 	}
 	servingFns := map[*ssa.Function]bool{gic: true, ad: true}
+	holderSites, workerSites := 0, 0
 	// P5/P6 releaseConn call sites: a serving connection, released once
 	for _, s := range c.CallSitesOf(rel) {
 		conn := core.CallArgs(s.Call)[1]
@@ -780,9 +781,14 @@ func servingProtocol(c *core.Ctx) []string {
 			}
 			par = pp
 		}
-		if !okPar || par == nil || s.Fn.Parent() != exCtx {
+		if !okPar || par == nil || (s.Fn.Parent() != exCtx && s.Fn != exCtx) {
 			fail("releaseConn at %s: connection %s is neither fresh nor exchangeConnCtx's parameter", where, core.Expr(conn))
 			continue
+		}
+		if s.Fn == exCtx {
+			holderSites++
+		} else {
+			workerSites++
 		}
 		// the closure is spawned once per exchangeConnCtx activation
 		spawns := 0
@@ -794,7 +800,7 @@ func servingProtocol(c *core.Ctx) []string {
 				}
 			}
 		})
-		if spawns != 1 {
+		if spawns != 1 && s.Fn != exCtx {
 			fail("exchangeConnCtx spawns the releasing worker %d times", spawns)
 		}
 		pi := 0
@@ -834,6 +840,9 @@ func servingProtocol(c *core.Ctx) []string {
 				_ = o
 			}
 		}
+	}
+	if holderSites > 0 && workerSites > 0 {
+		fail("the connection is released both by exchangeConnCtx and by its worker goroutine (two releases per acquisition)")
 	}
 	c.Assume("a fresh reusableConn's idle timer (>= 1 s) does not fire between newReusableConn and the exitIdle that follows it in asyncDial")
 	return bad
